@@ -23,3 +23,50 @@ Theorem C13_no_fault : forall (A : Type) (w : writer) (t : tr A), accepted w = [
   snd (run_writer w t) = snd t /\ accepted (fst (run_writer w t)) = concat (fst t).
 Proof. exact (@C13_no_fault_main). Qed.
 Print Assumptions C13_no_fault.
+
+(* ---- EVERY writer (Model/WriterGen.v: an oracle answering each write call from the whole history — one-shot failures, all-or-nothing sinks, Ok(0),
+        adversarial behaviour): accepted bytes are a prefix of the fault-free output, the failing call is the LAST call made, the old writer model is an instance ---- *)
+From SJ Require Import Base.Bytes Base.Utf8 Model.Read Model.Sval Model.Ser Model.WriterGen Spec.Layout Proofs.SerWriter Proofs.SerMain.
+From Coq Require Import Lia.
+From SJ Require Import Proofs.WriterGenProps.
+Theorem C13g_prefix : forall {A} (o : oracle) (fuel : nat) (t : tr A),  let st' := fst (grun_writer fuel o g0 t) in
+  let r := snd (grun_writer fuel o g0 t) in
+  is_prefix (gacc st') (concat (fst t))
+  /\ ((r = snd t /\ gacc st' = concat (fst t) /\ gwa st' = rev (fst t) /\ log_good o (ghist st'))
+      \/ (exists done b rest p s, fst t = done ++ b :: rest /\ b = p ++ s /\ s <> []
+            /\ gacc st' = concat done ++ p /\ gwa st' = rev (done ++ [b]) /\ stopped o (ghist st') s r)).
+Proof. exact (@WriterGenProps.C13g_prefix). Qed.
+Print Assumptions C13g_prefix.
+
+Theorem C13g_error_kind : forall {A} (o : oracle) (fuel : nat) (t : tr A),  let st' := fst (grun_writer fuel o g0 t) in
+  let r := snd (grun_writer fuel o g0 t) in
+  forall h2 s h1, ghist st' = h2 ++ s :: h1 ->
+    s <> []
+    /\ (forall kind, o h1 s = RFail kind -> h2 = [] /\ r = Err (Io kind) O)
+    /\ (o h1 s = RAccept 0 -> h2 = [] /\ r = Err (Io KIND_WRITE_ZERO) O)
+    /\ (forall n, o h1 s = RAccept n -> length s < n -> h2 = [] /\ r = Panic).
+Proof. exact (@WriterGenProps.C13g_error_kind). Qed.
+Print Assumptions C13g_error_kind.
+
+Theorem C13g_no_fault : forall {A} (o : oracle) (K fuel : nat) (t : tr A),  never_bad o -> interrupts_bounded o K -> (forall b, In b (fst t) -> S K * length b <= fuel) ->
+  let st' := fst (grun_writer fuel o g0 t) in
+  snd (grun_writer fuel o g0 t) = snd t /\ gacc st' = concat (fst t) /\ gwa st' = rev (fst t).
+Proof. exact (@WriterGenProps.C13g_no_fault). Qed.
+Print Assumptions C13g_no_fault.
+
+Theorem C13g_refines_old : forall {A} (w : writer) (fuel : nat) (t : tr A),  (forall b, In b (fst t) -> length (sched w) + length b < fuel) ->
+  let g := grun_writer fuel (oracle_of_writer w) (gstart (accepted w)) t in
+  gacc (fst g) = accepted (fst (run_writer w t))
+  /\ snd g = snd (run_writer w t)
+  /\ replay w (ghist (fst g)) = fst (run_writer w t).
+Proof. exact (@WriterGenProps.C13g_refines_old). Qed.
+Print Assumptions C13g_refines_old.
+
+Theorem C13g_buf_utf8 : forall cf fmt32 fmt64 F v (o : oracle) (fuel : nat), ryu_json fmt32 fmt64 ->
+  (forall ind, F = Pretty ind -> utf8_valid ind = true) -> wfs v = true ->
+  let st' := fst (grun_writer fuel o g0 (serialize_trace cf fmt32 fmt64 F v)) in
+  Forall (fun b => utf8_valid b = true) (gwa st')
+  /\ Forall (fun x => exists b, utf8_valid b = true /\ suffix_of b x) (ghist st').
+Proof. exact (@WriterGenProps.C13g_buf_utf8). Qed.
+Print Assumptions C13g_buf_utf8.
+
